@@ -2,18 +2,16 @@
    (VecNormalize.step_wait overwrites infos["terminal_observation"] with normalize_obs of it); _store_transition stores
    unnormalize_obs of that.  unnormalize (clip (normalize x)) is not x once |x - mean| > clip_obs * std, so the "raw" next
    observation of an episode-ending transition is wrong for outlying terminal observations.
-   Stated over Q with the standard deviation as a positive number (sqrt is not needed for the witness).
-   The same effect is replayed on the implementation by harness/c04.py (corpus/C04.jsonl, signature
-   vecnormalize-terminal-obs-clipped). *)
+   Stated with the scalar normalisation functions of the C15 model (Model/VecNorm.v: normalize_s / unnormalize_s, the standard
+   deviation given as a positive number).  The same effect is replayed on the implementation by harness/c04.py
+   (corpus/C04.jsonl, signature vecnormalize-terminal-obs-clipped). *)
 From Coq Require Import QArith Qminmax.
+From SB3V Require Import Model.VecNorm.
 Local Open Scope Q_scope.
-
-Definition vn_normalize (mean std clip x : Q) : Q := Qmin (Qmax ((x - mean) / std) (- clip)) clip.
-Definition vn_unnormalize (mean std y : Q) : Q := y * std + mean.
 
 Theorem C04_vecnormalize_terminal_obs_is_raw_refuted :
   exists mean std clip x, 0 < std /\ 0 < clip /\
-    ~ (vn_unnormalize mean std (vn_normalize mean std clip x) == x).
+    ~ (unnormalize_s (normalize_s x mean std clip) mean std == x).
 Proof.
   exists 100, (1 # 2), 10, 5000. split; [reflexivity|]. split; [reflexivity|].
   vm_compute. discriminate.
